@@ -40,10 +40,12 @@ def run(ctx):
         eol = fc["eol"]
         raws = list(fc["raws"])
         rec = raws[pos]
-        L = fmt.lines_per_entry
+        L = fmt.lines_per_entry or 1
         if cls == "marker":
-            if fmt.name not in ("fasta2", "fastq"):
+            if fmt.name not in ("fasta2", "fastq", "fastaw"):
                 return None
+            if fmt.name == "fastaw" and pos != 0:
+                return None         # in wrapped FASTA a later header without its marker is a sequence line: only the first record is diagnosable
             raws[pos] = r.choice("xA1 ") .strip() + rec[1:] if r.random() < 0.5 else "x" + rec[1:]
             if raws[pos] == rec:
                 raws[pos] = "x" + rec[1:]
@@ -88,7 +90,7 @@ def run(ctx):
             raws[pos] = "\t".join(f) + eol
             line = pos
         elif cls in ("extra-column", "missing-column"):
-            if fmt.name in ("fasta2", "fastq", "sam", "vcf"):
+            if fmt.name in ("fasta2", "fastq", "sam", "vcf", "fastaw"):
                 return None
             if pos == 0:
                 return None      # the first line defines the number of columns: a deviating FIRST line is not an unambiguous violation (BED4 read as BED3 is legal)
@@ -146,7 +148,7 @@ def run(ctx):
         n = r.randint(1, 6)
         fc = make_file(fname, r, n, r.choice(["tiny", "normal"]), {"noncanon": False, "eol": "\n", "final_newline": True, "score_mode": "int", "tags": False})
         bt = tables.get_buffer_type(fmt.buffer)
-        L = fmt.lines_per_entry
+        L = fmt.lines_per_entry or 1
         good_path = ctx.path("good" + fmt.suffix)
         with open(good_path, "wb") as f:
             f.write(fc["data"])
@@ -199,7 +201,7 @@ def run(ctx):
                 elif numbers:
                     ctx.judged("line-number-invariant:" + cls, (data, cls, pos, "inv"))
 
-    fmts = ["fasta2", "fastq", "bed3", "bed6", "bdg", "narrowpeak", "sam", "vcf"]
+    fmts = ["fasta2", "fastq", "bed3", "bed6", "bdg", "narrowpeak", "sam", "vcf", "fastaw"]
     for i in range(ctx.share(ctx.pick(30 * len(fmts), 60 * len(fmts)))):
         ctx.run_case(one, {"fmt": fmts[i % len(fmts)], "seed": rng.randrange(2 ** 40)})
     ctx.sample({"format": "fastq", "class": "plus", "record": 1, "data": "@a\nAC\n+\n!!\n@b\nG\nx\n#\n", "expected": "every configuration raises; FormatException.line_number in 4..7 and equal everywhere"})
